@@ -15,7 +15,7 @@ def recsOf (hashOf : List β → H) (lb : LBackup β) : List (MRec H) := lb.es.f
 
 theorem mem_recsOf (hashOf : List β → H) (lb : LBackup β) (r : MRec H) :
     r ∈ recsOf hashOf lb ↔ ∃ p m d, (.file p m d : Entry β) ∈ lb.es ∧
-      r = ⟨decide (d.length ≠ 0) && lb.stored p, hashOf d, d.length, keyE (.file p m d : Entry β)⟩ := by
+      r = ⟨lb.stored p, hashOf d, d.length, keyE (.file p m d : Entry β)⟩ := by
   unfold recsOf
   rw [List.mem_filterMap]
   constructor
@@ -31,7 +31,7 @@ theorem mem_recsOf (hashOf : List β → H) (lb : LBackup β) (r : MRec H) :
     exact ⟨_, he, rfl⟩
 
 theorem isOwn_rec (hashOf : List β → H) (stored : String → Bool) (p : String) (m : Meta) (d : List β) :
-    isOwn (⟨decide (d.length ≠ 0) && stored p, hashOf d, d.length, keyE (.file p m d : Entry β)⟩ : MRec H) =
+    isOwn (⟨stored p, hashOf d, d.length, keyE (.file p m d : Entry β)⟩ : MRec H) =
       isOwnE stored (.file p m d : Entry β) := by
   cases d with
   | nil => simp [isOwn, isOwnE]
@@ -152,7 +152,7 @@ theorem plan_facts (hashOf : List β → H) (hinj : ∀ x y, hashOf x = hashOf y
       · left
         cases a with
         | file p' m' d' =>
-          refine ⟨⟨decide (d'.length ≠ 0) && lt.stored p', hashOf d', d'.length, keyE (.file p' m' d' : Entry β)⟩,
+          refine ⟨⟨lt.stored p', hashOf d', d'.length, keyE (.file p' m' d' : Entry β)⟩,
             (mem_recsOf hashOf lt _).mpr ⟨p', m', d', ha, rfl⟩, by rw [isOwn_rec]; exact hown, ?_⟩
           simp only [contentE] at hc
           simp only [hc]
@@ -161,7 +161,7 @@ theorem plan_facts (hashOf : List β → H) (hinj : ∀ x y, hashOf x = hashOf y
         | other p' => cases hown
       · right
         refine ⟨j, hj, render hashOf lb, recsOf hashOf lb, hgrp j lb hlb, rfl,
-          ⟨decide (d'.length ≠ 0) && lb.stored p', hashOf d', d'.length, keyE (.file p' m' d' : Entry β)⟩,
+          ⟨lb.stored p', hashOf d', d'.length, keyE (.file p' m' d' : Entry β)⟩,
           (mem_recsOf hashOf lb _).mpr ⟨p', m', d', he', rfl⟩, ?_, ?_⟩
         · simp only [contentE] at hd
           have hne : d ≠ [] := by
@@ -200,7 +200,7 @@ theorem plan_facts (hashOf : List β → H) (hinj : ∀ x y, hashOf x = hashOf y
         cases b with
         | file p m d =>
           apply hperm.mem_iff.mpr
-          have hrec : (⟨decide (d.length ≠ 0) && lt.stored p, hashOf d, d.length, keyE (.file p m d : Entry β)⟩ : MRec H) ∈
+          have hrec : (⟨lt.stored p, hashOf d, d.length, keyE (.file p m d : Entry β)⟩ : MRec H) ∈
               (recsOf hashOf lt).filter (fun r => !isOwn r) := by
             apply List.mem_filter.mpr
             refine ⟨(mem_recsOf hashOf lt _).mpr ⟨p, m, d, hb, rfl⟩, ?_⟩
@@ -232,7 +232,7 @@ theorem plan_facts (hashOf : List β → H) (hinj : ∀ x y, hashOf x = hashOf y
       f0_all := fun a ha hown => by
         cases a with
         | file p m d =>
-          have hrec : (⟨decide (d.length ≠ 0) && lt.stored p, hashOf d, d.length, keyE (.file p m d : Entry β)⟩ : MRec H) ∈
+          have hrec : (⟨lt.stored p, hashOf d, d.length, keyE (.file p m d : Entry β)⟩ : MRec H) ∈
               (recsOf hashOf lt).filter isOwn := by
             apply List.mem_filter.mpr
             exact ⟨(mem_recsOf hashOf lt _).mpr ⟨p, m, d, ha, rfl⟩, by rw [isOwn_rec]; exact hown⟩
@@ -259,8 +259,7 @@ theorem plan_facts (hashOf : List β → H) (hinj : ∀ x y, hashOf x = hashOf y
       fkeys := fun kv hkvm => by
         obtain ⟨u, hu, huu, h1, h2, h3, hq⟩ := hkv kv hkvm
         obtain ⟨p, m, d, he, rfl⟩ := (mem_recsOf hashOf lb u).mp hu
-        simp only [Bool.and_eq_true, decide_eq_true_eq] at huu
-        refine ⟨_, he, ⟨p, m, d, rfl, huu.2⟩, h1, h2, h3, ?_⟩
+        refine ⟨_, he, ⟨p, m, d, rfl, huu⟩, h1, h2, h3, ?_⟩
         intro q hqin
         refine ⟨?_, hfanent d q (hq q hqin)⟩
         rw [hexteq]
